@@ -1,6 +1,9 @@
 package refvanilla
 
-import "fmt"
+import (
+	"fmt"
+	"unicode/utf8"
+)
 
 // ---------------------------------------------------------------------------------------------------------------
 // Handshake (serverbound 0x00, all versions): VarInt protocol, String(255) address, Unsigned Short port,
@@ -505,4 +508,42 @@ func DecodePlayerInfoRemove(protocol int, body []byte) (ids []UUID, err error) {
 		}
 	})
 	return
+}
+
+// ---------------------------------------------------------------------------------------------------------------
+// Well-known plugin channel payloads (what a vanilla peer does with the data of a plugin message).
+//   brand (MC|Brand / minecraft:brand): >= 1.8 one String(32767) filling the payload exactly; 1.7 the raw UTF-8 bytes.
+//   REGISTER / minecraft:register (and UNREGISTER): channel names separated by a single NUL byte, no terminator.
+
+func DecodeBrandPayload(protocol int, data []byte) (brand string, err error) {
+	err = run(data, func(r *R) {
+		if protocol >= V1_8 {
+			brand = r.String(32767, "brand")
+			return
+		}
+		b := r.Rest()
+		if !utf8.Valid(b) {
+			fail("brand: invalid UTF-8")
+		}
+		brand = string(b)
+	})
+	return
+}
+
+func DecodeRegisterPayload(data []byte) (channels []string, err error) {
+	if len(data) == 0 {
+		return nil, nil
+	}
+	start := 0
+	for i := 0; i <= len(data); i++ {
+		if i == len(data) || data[i] == 0 {
+			seg := data[start:i]
+			if !utf8.Valid(seg) {
+				return nil, &DecodeError{"register: invalid UTF-8 in a channel name"}
+			}
+			channels = append(channels, string(seg))
+			start = i + 1
+		}
+	}
+	return channels, nil
 }
